@@ -459,6 +459,10 @@ pub async fn host_main(h: usize, sh: Rc<Shared>) -> turmoil::Result {
 /// Configuration of one case (also printed as the CFG line and parsed back for replays).
 #[derive(Clone, Debug)]
 pub struct CaseCfg {
+    /// tick in microseconds when non-zero (overrides tick_ms)
+    pub tick_us: u64,
+    /// hosts registered later with `reglate`
+    pub late: usize,
     pub tick_ms: u64,
     pub hosts: usize,
     pub tcpcap: usize,
@@ -477,6 +481,8 @@ pub struct CaseCfg {
 impl Default for CaseCfg {
     fn default() -> Self {
         CaseCfg {
+            tick_us: 0,
+            late: 0,
             tick_ms: 1,
             hosts: 2,
             tcpcap: 64,
@@ -497,8 +503,8 @@ impl Default for CaseCfg {
 impl CaseCfg {
     pub fn line(&self) -> String {
         format!(
-            "CFG tick_ms={} hosts={} tcpcap={} udpcap={} ephlo={} ephhi={} ipv={} minlat_ms={} maxlat_ms={} fail={} repair={} rng_seed={} order={}",
-            self.tick_ms, self.hosts, self.tcpcap, self.udpcap, self.ephlo, self.ephhi,
+            "CFG tick_us={} late={} tick_ms={} hosts={} tcpcap={} udpcap={} ephlo={} ephhi={} ipv={} minlat_ms={} maxlat_ms={} fail={} repair={} rng_seed={} order={}",
+            self.tick_us, self.late, self.tick_ms, self.hosts, self.tcpcap, self.udpcap, self.ephlo, self.ephhi,
             if self.v6 { 6 } else { 4 }, self.minlat_ms, self.maxlat_ms, self.fail, self.repair, self.rng_seed,
             if self.desc { "desc" } else { "asc" }
         )
@@ -509,6 +515,8 @@ impl CaseCfg {
             let Some((k, v)) = kv.split_once('=') else { continue };
             match k {
                 "tick_ms" => c.tick_ms = v.parse().unwrap(),
+                "tick_us" => c.tick_us = v.parse().unwrap(),
+                "late" => c.late = v.parse().unwrap(),
                 "hosts" => c.hosts = v.parse().unwrap(),
                 "tcpcap" => c.tcpcap = v.parse().unwrap(),
                 "udpcap" => c.udpcap = v.parse().unwrap(),
@@ -548,7 +556,8 @@ fn ipnum(ip: IpAddr) -> u128 {
 impl<'a> Case<'a> {
     pub fn new(cfg: CaseCfg) -> Case<'a> {
         let mut b = turmoil::Builder::new();
-        b.tick_duration(Duration::from_millis(cfg.tick_ms))
+        let tick = if cfg.tick_us > 0 { Duration::from_micros(cfg.tick_us) } else { Duration::from_millis(cfg.tick_ms) };
+        b.tick_duration(tick)
             .tcp_capacity(cfg.tcpcap)
             .udp_capacity(cfg.udpcap)
             .ephemeral_ports(cfg.ephlo..=cfg.ephhi)
@@ -563,9 +572,10 @@ impl<'a> Case<'a> {
             b.ip_version(turmoil::IpVersion::V6);
         }
         let mut sim = b.build();
-        let notifies: Vec<Rc<Notify>> = (0..cfg.hosts).map(|_| Rc::new(Notify::new())).collect();
+        let total = cfg.hosts + cfg.late;
+        let notifies: Vec<Rc<Notify>> = (0..total).map(|_| Rc::new(Notify::new())).collect();
         let sh = Rc::new(Shared {
-            queues: RefCell::new((0..cfg.hosts).map(|_| VecDeque::new()).collect()),
+            queues: RefCell::new((0..total).map(|_| VecDeque::new()).collect()),
             notifies,
             start: RefCell::new(None),
         });
@@ -602,6 +612,25 @@ impl<'a> Case<'a> {
         Case { sim, sh, running: vec![true; cfg.hosts], cfg, idx: 0 }
     }
 
+    /// Register one more host while the simulation is running.
+    fn reglate(&mut self) -> String {
+        let i = addrs(|m| m.hosts.len());
+        if i >= self.cfg.hosts + self.cfg.late {
+            return "err nolate".into();
+        }
+        let sh2 = self.sh.clone();
+        let name = format!("n{i}");
+        self.sim.host(name.as_str(), move || host_main(i, sh2.clone()));
+        let ip = self.sim.lookup(name.as_str());
+        let nodename = self.sim.reverse_lookup(ip).unwrap_or_else(|| ip.to_string());
+        addrs_mut(|m| {
+            m.hosts.push(ip);
+            m.names.push(nodename);
+        });
+        self.running.push(true);
+        format!("ok {i} ip={}", ipnum(ip))
+    }
+
     /// Execute one controller line.
     pub fn ctl(&mut self, line: &str) {
         let t: Vec<&str> = line.split_whitespace().collect();
@@ -618,10 +647,8 @@ impl<'a> Case<'a> {
         log(format!("OP ctl {line}"));
         let obs: String = match t[0] {
             "step" => {
-                for h in 0..self.cfg.hosts {
-                    if !self.sh.queues.borrow()[h].is_empty() || true {
-                        self.sh.notifies[h].notify_one();
-                    }
+                for h in 0..self.running.len() {
+                    self.sh.notifies[h].notify_one();
                 }
                 let r = self.sim.step();
                 drain_oracle();
@@ -718,6 +745,7 @@ impl<'a> Case<'a> {
             "setfail" => { self.sim.set_fail_rate(t[1].parse().unwrap()); "ok".into() }
             "setlinkfail" => { self.sim.set_link_fail_rate(ip(t[1]), ip(t[2]), t[3].parse().unwrap()); "ok".into() }
             "mark" => "ok".into(),
+            "reglate" => self.reglate(),
             "dns" => {
                 let ip = self.sim.lookup(t[1]);
                 format!("ok {}", ipnum(ip))
